@@ -12,7 +12,7 @@ import random
 
 from ..core import Violation, shrink_list, h64
 from .. import seams, netlist
-from ..catalog import KINDS, kinds_with, Pool, rand_width, M
+from ..catalog import KINDS, kinds_with, Pool, rand_width, M, set_big
 from ..seams import quiet
 from .c04 import local_fixpoint
 
@@ -39,13 +39,19 @@ def make_gen(tag, widths_hi=70):
             return pool.new_input(rand_width(rng, lo, hi))
         pool.any = any_
         pool.nonzero = lambda ref, w: ref
-        params, ins, ows = k.plan(rng, pool)
-        for _ in range(20):
-            if not params.get('amb'):
-                break
-            pool.inputs.clear()
-            pool.sigs.clear()
+        # big: widths and input counts beyond the usual ones (past 64 bits / 64 inputs), a seeded minority of the runs
+        big = rng.random() < 0.12
+        set_big(big)
+        try:
             params, ins, ows = k.plan(rng, pool)
+            for _ in range(20):
+                if not params.get('amb'):
+                    break
+                pool.inputs.clear()
+                pool.sigs.clear()
+                params, ins, ows = k.plan(rng, pool)
+        finally:
+            set_big(False)
         nz = [1] if 'div' in k.tags else []          # divisor: never zero, never registered
         # listener bench: a purely combinational design (no clocked element at all) whose stimuli are applied by a simulator
         # listener from inside its callback during one clk(n) burst, the listener also reads the outputs
@@ -127,7 +133,7 @@ def make_gen(tag, widths_hi=70):
         if listener_bench:
             return {'design': d, 'order': order, 'perm': None, 'steps': [{'vec': x['vec'], 'faults': []} for x in steps], 'late': None, 'bench': 'listener'}
         return {'design': d, 'order': order, 'perm': rs.sub('perm') if fr.random() < 0.7 else None, 'steps': steps,
-                'late': fr.randint(0, len(order) - 1) if (fr.random() < 0.15 and order) else None}
+                'late': fr.randint(0, len(order) - 1) if (fr.random() < 0.15 and order) else None, 'big': big}
     return gen
 
 
@@ -258,6 +264,12 @@ def run(scn, log, st):
         log.add(si, ov)
     st.state(blk['kind'], repr(sorted(blk['p'].items())), tuple(blk['ow']))
     st.probe('kind_' + blk['kind'])
+    if scn.get('big'):
+        st.probe('beyond_usual_sizes')
+        if max(list(netlist.sig_widths(d).values()) + [0]) > 64:
+            st.probe('wider_than_64_bits')
+        if len(blk['ins']) > 64 or len(blk['ow']) > 64:
+            st.probe('more_than_64_ports')
     if len(outs_seen) >= 2:
         st.probe('output_toggled')
         if st.faults:
